@@ -5,10 +5,12 @@
    Positions are values of ANY type T with ANY binary operation [add] and ANY [zero]: no arithmetic law is used --
    "initial position plus offset" is literally [add p0 off].  The tie instantiates T = Z (Python ints) and T = binary64
    (Python floats, bit-exact).
-   Devices may have parents.  PARTIAL (hence the names): the pseudo-positioner coupling (coupled_parents non-empty: a
-   pseudo axis also records its parent and siblings, the cleanup skips the axes of coupled parents) IS in the model
-   ([record], [restored]) and in the tie, and the reset theorems hold with it; the per-step offsets theorem is
-   proved for device sets without a coupled pseudo-positioner only; see manifest_parts/C24.json.
+   Devices may have parents; the pseudo-positioner coupling (coupled_parents non-empty: a pseudo axis also records its
+   parent and siblings, the cleanup skips the axes of coupled parents) is in the model ([record], [restored]) and in the
+   tie.  The reset theorems hold for every device tree and every coupled_parents.  The per-step offsets theorems keep
+   the suffix _partial: the strong form is for device sets without a coupled pseudo-positioner, the form for arbitrary
+   coupling has weaker clauses (witnesses below), and a set addressed to the pseudo-positioner OBJECT itself through
+   relative_set_wrapper (Python: tuple + offset raises TypeError) is not modelled; see manifest_parts/C24.json.
 
    All theorems: for EVERY wrapped plan (any coalgebra P, resume, any state p), every message encoding with
    view (mk v) = v, every device classification [kind] / [elig] (`devices is None or obj in devices`), every answer
@@ -48,11 +50,34 @@ Theorem C24_relative_sets_are_offsets_partial :
 Proof. exact @relative_step. Qed.
 Print Assumptions C24_relative_sets_are_offsets_partial.
 
+(* The same WITHOUT the hypothesis on coupled_parents: any device tree, any coupled pseudo-positioner parents.
+   Clauses 1, 3, 5 survive in this form: initial_positions is unchanged or extended by ONE run of the recording code
+   [record] (Gen/Relative.v: the device and -- for an axis of a coupled pseudo-positioner -- its parent and siblings) for
+   an eligible device not recorded before; nothing recorded is ever forgotten; a set on an eligible device leaves -- outside
+   class C24-a -- only once its device is recorded and is re-created as set(add p0 off) with p0 the value recorded for it
+   at that moment; non-set messages pass unchanged.  Clauses 2 and 4 of the theorem above, and "exactly one device" in
+   clause 1, do NOT survive coupling: C24_coupled_clauses_refuted below. *)
+Theorem C24_relative_sets_are_offsets_coupled_partial :
+  forall (T P : Type) (add : T -> T -> T) (zero : T) (pos_of : val -> T) (kind : dev -> dkind) (position : dev -> T)
+         (resume : P -> input -> outcome P) (view : msg -> rview T) (mk : rview T -> msg) (elig : dev -> bool)
+         (parent : dev -> option dev) (coupled : dev -> bool) (pseudos : dev -> list dev) (comps : T -> list T),
+    (forall v, view (mk v) = v) ->
+    forall (p : P) (s : list input) x i m x',
+      let ins := ins_resume resume (rel_decide zero pos_of kind position view mk elig parent coupled pseudos comps) in
+      after ins (IStart p []) s = Some x -> ins x i = Yielded m x' ->
+      recorded_c zero pos_of kind position elig parent coupled pseudos comps (ins_store x Close) (ins_store x' Close) /\
+      (forall k, has k (ins_store x Close) -> has k (ins_store x' Close)) /\
+      (forall d off g, view m = RSet d off g -> elig d = true -> c24a_step resume view elig x i = false ->
+         exists p0, ps_get d (ins_store x' Close) = Some p0 /\ rewrite_pos add view x' m = Some (RSet d (add p0 off) g)) /\
+      (forall c, view m = c -> (forall d off g, c <> RSet d off g) -> rewrite_pos add view x' m = None).
+Proof. exact @relative_step_coupled. Qed.
+Print Assumptions C24_relative_sets_are_offsets_coupled_partial.
+
 (* reset_positions_wrapper = finalize_wrapper(plan_mutator(plan, insert_reads), reset()): for every script that
    neither closes nor halts the wrapper the whole trace is the reference: the plan_mutator layer (to which the theorem
    above applies verbatim: same machine), then -- when it ends by return or by any exception that is not a
    GeneratorExit kind -- the cleanup computed from the positions recorded by then *)
-Theorem C24_reset_trace_partial :
+Theorem C24_reset_trace :
   forall (T P : Type) (zero : T) (pos_of : val -> T) (kind : dev -> dkind) (position : dev -> T)
          (resume : P -> input -> outcome P) (view : msg -> rview T) (mk : rview T -> msg) (elig : dev -> bool)
          (parent : dev -> option dev) (coupled : dev -> bool) (pseudos : dev -> list dev) (comps : T -> list T)
@@ -62,13 +87,13 @@ Theorem C24_reset_trace_partial :
     = s2_ref (ins_resume resume (rel_decide zero pos_of kind position view mk elig parent coupled pseudos comps)) ins_store
              (lp_resume (fun _ => false)) (fw_next (reset_plan mk parent coupled)) (IStart p []) (Send VNone :: s).
 Proof. exact @reset_trace. Qed.
-Print Assumptions C24_reset_trace_partial.
+Print Assumptions C24_reset_trace.
 
 (* the plan ended (success, failure, RequestStop, RequestAbort ...) with [st] recorded and the cleanup's messages are
    answered: every recorded device -- by the theorem above that includes every eligible device a set of which has left
    the wrapper, outside class C24-a -- is sent back to its recorded initial position, in first-touch order, in one
    group, followed by one wait on that group; then the wrapper ends the way the plan ended *)
-Theorem C24_reset_restores_all_partial :
+Theorem C24_reset_restores_all :
   forall (T P : Type) (zero : T) (pos_of : val -> T) (kind : dev -> dkind) (position : dev -> T)
          (resume : P -> input -> outcome P) (view : msg -> rview T) (mk : rview T -> msg) (elig : dev -> bool)
          (parent : dev -> option dev) (coupled : dev -> bool) (pseudos : dev -> list dev) (comps : T -> list T)
@@ -83,7 +108,7 @@ Theorem C24_reset_restores_all_partial :
       ++ map OYield (map (fun kv => mk (RSet (fst kv) (snd kv) G_RESET)) (restored parent coupled st) ++ [mk (RWait G_RESET)])
       ++ [compl_obs c].
 Proof. exact @reset_restores_all. Qed.
-Print Assumptions C24_reset_restores_all_partial.
+Print Assumptions C24_reset_restores_all.
 
 (* WHICH devices are restored: [restored] drops exactly the recorded devices whose parent is a coupled
    pseudo-positioner parent (`k.parent in coupled_parents`); a device whose parent is an ordinary device (stage.x),
@@ -140,6 +165,27 @@ Theorem C24_a_refuted :
    | None => false
    end) = true.
 Proof. vm_compute. split; reflexivity. Qed.
+
+(* Under coupling three clauses of the uncoupled theorem fail -- by design of the recording code, not by accident.
+   Pseudo-positioner 3 (coupled) with pseudo axes 0 and 2, position (10, 20):
+   (a) one recording step records THREE devices, and the axis gets the parent's component (10), not its own setpoint (5);
+   (b) devices 2 and 3 are recorded although only device 0 is eligible;
+   (c) a recorded value CAN change: the exact condition for "never changes" is that every tuple recorded for a coupled
+       parent has as many components as the parent has pseudo axes (then all axes are recorded with the parent and none
+       of them is ever recorded again) and that every pseudo axis names that parent as its .parent; with a 1-tuple (7)
+       recorded for parent 3 first, recording axis 2 later overwrites the parent's value by its .position. *)
+Definition cp_parent (d : dev) : option dev := match d with 0 | 2 => Some 3 | _ => None end.
+Definition cp_coupled (d : dev) : bool := Nat.eqb d 3.
+Definition cp_pseudos (d : dev) : list dev := match d with 3 => [0; 2] | _ => [] end.
+Definition cp_position (d : dev) : tv := match d with 3 => TT [10; 20]%Z | _ => TS 0 end.
+Definition cp_record := record cp_position cp_parent cp_coupled cp_pseudos tv_comps.
+
+Theorem C24_coupled_clauses_refuted :
+  cp_record 0 (TS 5) [] = [(0, TS 10); (3, TT [10; 20]%Z); (2, TS 20)] /\
+  (let st1 := cp_record 3 (TT [7]%Z) [] in
+   let st2 := cp_record 2 (TS 20) st1 in
+   ps_get 3 st1 = Some (TT [7]%Z) /\ ps_get 3 st2 = Some (TT [10; 20]%Z)).
+Proof. vm_compute. repeat split; reflexivity. Qed.
 
 (* ------------------------------------------------------------------ non-vacuity *)
 Definition nv_tbl : list (rview Z) :=
